@@ -3,6 +3,7 @@
   answers what the Spec graph answers.
 -/
 import Nervus.Proofs.EngineC06
+import Nervus.Proofs.StoreRoot
 namespace Nervus.Storage
 open Nervus.GraphSpec (Graph TxOp Op Rel)
 
@@ -230,7 +231,7 @@ theorem Sim.reads (c : Cfg) {s g} (h : Sim s g) : ReadsAgree c s g := by
   · intro n k hn
     obtain ⟨_, h2, _⟩ := hlive n hn
     unfold Engine.nodeProp
-    rw [hG.root, ← hG.nprops n k h2]
+    rw [visibleStore_noRoot hG.root, ← hG.nprops n k h2]
     cases npropRuns n k s.runs <;> rfl
   · intro n k hn
     obtain ⟨_, h2, _⟩ := hlive n hn
@@ -242,7 +243,7 @@ theorem Sim.reads (c : Cfg) {s g} (h : Sim s g) : ReadsAgree c s g := by
     obtain ⟨_, ha2, _⟩ := hlive a ha
     obtain ⟨_, hb2, _⟩ := hlive b hb
     unfold Engine.edgeProp
-    rw [hG.root, ← hG.eprops r nm a b k hr ha2 hb2]
+    rw [visibleStore_noRoot hG.root, ← hG.eprops r nm a b k hr ha2 hb2]
     cases epropRuns ⟨a, r, b⟩ k s.runs <;> rfl
   · intro r nm a b k hr ha hb
     obtain ⟨_, ha2, _⟩ := hlive a ha
